@@ -705,8 +705,26 @@ def r12_1(chk: Check, M: Model, slots: dict) -> None:
             r = _profile_marks(d)
             chk.ob("R12.1", fi.where(), f"{arm} branch: `{label}` is the derivative of `{PROFILE_LABEL[label]}` (same profile in both derivative modes)",
                    r == {attr}, f"differentiates {sorted(r)}: {n(d)[:100]}", key=f"root|{arm}|{label}")
-    # finite-difference operators: first derivative along axis 0 on the compact coordinates including the end points
+    # finite-difference derivative of a profile: the full derivative matrix (end-point rows and columns included) acts on the full profile
+    # (end points included); only the RESULT is restricted to the interior points.  Trimming an operand first drops the boundary terms of the
+    # stencils next to the ends (the profiles do not vanish there, unlike deltaF).
     F = M.flat["fd"]
+
+    def interior(sl) -> bool:
+        return any(isinstance(e, ast.Slice) and e.lower is not None and e.upper is not None and eqx(e.lower, "1") and eqx(e.upper, "-1")
+                   for e in (sl.elts if isinstance(sl, ast.Tuple) else [sl]))
+
+    for label in PROFILES:
+        d = F.full(F.held[slots[label]])
+        contr = [x for x in ast.walk(d) if (isinstance(x, ast.BinOp) and isinstance(x.op, ast.MatMult))
+                 or (isinstance(x, ast.Call) and (dotted(x.func) or "").split(".")[-1] in ("einsum", "tensordot", "dot", "matmul"))
+                 or (isinstance(x, ast.Call) and (dotted(x.func) or "") == "np.sum" and x.args and isinstance(x.args[0], ast.BinOp) and isinstance(x.args[0].op, ast.Mult))]
+        inner = [y for c in contr for y in ast.walk(c) if isinstance(y, ast.Subscript) and interior(y.slice)]
+        outer = [y for y in ast.walk(d) if isinstance(y, ast.Subscript) and interior(y.slice) and not any(y is z for z in inner)]
+        chk.ob("R12.1", fi.where(), f"fd branch: `{label}` = (full derivative matrix applied to the full profile) restricted to the interior points afterwards: "
+               "no operand of the contraction is trimmed to [1:-1] first", bool(contr) and not inner and bool(outer),
+               f"{n(d)[:160]}" if (inner or not contr or not outer) else "", key=f"fd|full-then-trim|{label}")
+    # finite-difference operators: first derivative along axis 0 on the compact coordinates including the end points
     fds = {}
     for nm in set(slots.values()) | set(F.held):
         if nm in F.held:
@@ -733,7 +751,7 @@ def r12_1(chk: Check, M: Model, slots: dict) -> None:
                key=f"fd|op|{ {'z': 'chiFull', 'pz': 'rzFull', 'pp': 'rpFull'}.get(direction, n(c)[:60]) }")
     chk.ob("R12.1", fi.where(), "finite-difference matrices are built on the compact coordinates including the end points", bool(ends) and all(ends),
            key="fd|endpoints")
-    chk.floor("R12.1", 11)
+    chk.floor("R12.1", 14)
 
 
 # ------------------------------------------------------------------------------------------------ R12.3
@@ -1071,3 +1089,11 @@ def rules(chk: Check) -> None:
     from .shared import called_for_effect_mutates
     chk.stage(called_for_effect_mutates, chk, "R12.8", "changeBasis")
     chk.floor("R12.8", 2)
+    # R12.9: the collision operator is re-expressed in the momentum basis of the solver by the inverse-transpose change of basis (shared with
+    # C14 R14.3): converting Chebyshev-stored collision data for a Cardinal-basis solve must give the same operator
+    from . import c14
+    chk.stage(c14.r14_3, Remap(chk, {"R14.3": "R12.9"}))
+    chk.floor("R12.9", 4)
+    # R12.10: the solver never updates in place an array it obtained from the grid / the background / a polynomial (views of cached state)
+    from .shared import no_inplace_mutation_of_aliased_state
+    chk.stage(no_inplace_mutation_of_aliased_state, chk, "R12.10", ("boltzmann", "polynomial", "collisionArray", "containers"), 10)
